@@ -437,3 +437,45 @@ HOT_FIELDS = set([
     "slice_size_scaler", "dwt_depth", "dwt_depth_ho", "wavelet_index", "wavelet_index_ho", "picture_coding_mode",
     "custom_quant_matrix", "asym_transform_flag", "asym_transform_index_flag", "frame_width", "frame_height",
     "index", "luma_excursion", "color_diff_excursion", "frame_rate_denom", "pixel_aspect_ratio_denom"])
+
+
+def run_fuzz_shard(pid, k, ctx, runs):
+    """Thorough tier only: one coverage-guided libFuzzer job (atheris) over raw bytes with the property's own
+    oracle inside the target; odd jobs start from the empty corpus, even jobs from the valid corpus streams."""
+    import json
+    import os
+    import shutil
+    import subprocess
+    import sys
+    import tempfile
+
+    from vpbt import core
+
+    col = ctx.col
+    target = os.path.join(core.VERIF, "vpbt", "fuzz", "validator_target.py")
+    d = tempfile.mkdtemp(prefix="vpbt-fuzz-", dir="/tmp")
+    try:
+        out = os.path.join(d, "result.json")
+        cmd = [sys.executable, target, "--out", out, "--props", pid, "--corpus", os.path.join(d, "corpus")]
+        if k % 2 == 0:
+            cmd.append("--seed-corpus")
+        cmd += ["--", "-runs=%d" % runs, "-seed=%d" % (ctx.seed % (2 ** 31 - 1) + 1), "-max_len=2048", "-print_final_stats=0"]
+        env = dict(os.environ, PYTHONHASHSEED="0")
+        r = subprocess.run(cmd, env=env, stdout=subprocess.DEVNULL, stderr=subprocess.PIPE, text=True)
+        if not os.path.exists(out):
+            if "No module named 'atheris'" in r.stderr:
+                col.count("fuzz_unavailable(atheris not installed: run MANIFEST.setup_cmd)")
+                return
+            raise RuntimeError("fuzz job produced no result: " + r.stderr[-500:])
+        res = json.load(open(out))
+        col.evaluations += res["execs"]
+        col.count("fuzz_execs", res["execs"])
+        col.count("fuzz_jobs")
+        col.count("fuzz_nontrivial_execs", res["nontrivial"])
+        for lab, n in res[pid]["labels"].items():
+            col.count("fuzz:" + lab, n)
+        for b, f in res[pid]["failures"].items():
+            col.failure_counts[b] += res[pid]["failure_counts"].get(b, 1)
+            col.failures.setdefault(b, f)
+    finally:
+        shutil.rmtree(d, ignore_errors=True)
